@@ -18,6 +18,8 @@ def op_chains(rng, q, focus):
                 ops.append((rng.choice("RL"), k))
             elif x < (0.7 if focus != "C15" else 0.4):
                 ops.append(("RC",))
+                if focus == "C14":
+                    ops.append(("COMM", rng.choice([1, n - 1, rng.randrange(0, 2 * n + 1), n // 2, n + 2])))
             elif x < 0.85:
                 s = str(rec.seq)
                 L = rng.choice([0, 1, 2, n - 1, n, n + 1, n + 2, rng.randint(0, n + 2)])
@@ -56,6 +58,8 @@ def exhaustive_small(rng, focus):
             for k in range(-2 * n, 2 * n + 1):
                 ops.append(("R", k))
                 ops.append(("RC",) if focus == "C14" else ("L", (k * 7) % (n + 3)))
+                if focus == "C14":
+                    ops.append(("COMM", k))
         # the same at every rotation of the record (C15: the answer is the same for every rotation)
         for k in range(n):
             out.append((rec >> k, ops))
@@ -115,6 +119,8 @@ def replay_case(rec):
             ops.append((e["dir"], e["k"]))
         elif e["ev"] == "RevComp":
             ops.append(("RC",))
+        elif e["ev"] == "Commute":
+            ops.append(("COMM", e["k"]))
         elif e["ev"] == "Contains":
             from .. import dna
             ops.append(("IN", dna.dec(e["q"])))
